@@ -115,6 +115,11 @@ def transport_cases(ctx):
     for v in OFFERED_ONLY:
         for b in [["req", "note"], ["resp"]]:
             yield {"handshake": v, "offered": [v, "2025-06-18"], "schedule": [["batch", b], ["single", "note"]]}
+    # batches with more members than the read stream buffers (100)
+    for v in (None, "2025-03-26", "2025-06-18"):
+        for n in (100, 101, 150) if ctx.tier == "quick" else (100, 101, 150, 400, 1000):
+            yield {"schedule": [["version", v], ["batch", [rng.choice(VALID if rng.random() < 0.8 else INVALID) for _ in range(n)]],
+                                ["single", "note"]]}
     # two batches in one chunk / batch split across chunks
     for v in ["2025-03-26", "2025-06-18"]:
         yield {"schedule": [["version", v], ["batch2", ["req", "note"], ["resp", "err"]]]}
@@ -330,6 +335,54 @@ def exec_wrapper_handshake(ctx, case: Dict[str, Any]) -> None:
                sample={"case": case, "delivered": len(got_w), "rejections": len(rej)})
 
 
+def exec_two_clients(ctx, case: Dict[str, Any]) -> None:
+    """Two stdio clients alive in one process at different negotiated versions: each applies its own rule."""
+    from vf.stdio_harness import run_multi_stdio
+    va, vb, members = case["versions"][0], case["versions"][1], case["batch"]
+    line = (json.dumps([MEMBERS[k] for k in members]) + "\n").encode()
+    note = (json.dumps(MEMBERS["note"]) + "\n").encode()
+    script: List[Any] = [("open", "a"), ("open", "b")]
+    order = case.get("order", "ab")
+    for name, v in (("a", va), ("b", vb)) if order == "ab" else (("b", vb), ("a", va)):
+        if v is not None:
+            script.append(("version", name, v))
+    script += [("feed", "a", line), ("feed", "b", line), ("settle",), ("feed", "b", note), ("feed", "a", note), ("settle",)]
+    try:
+        res = run_multi_stdio(script)
+    except Exception as e:  # noqa
+        ctx.violation("harness_or_crash", f"two clients: {e!r}", case)
+        return
+    ctx.count("stdio_sessions")
+    ctx.count("two_client_sessions")
+    shape = []
+    for name, v in (("a", va), ("b", vb)):
+        got = [norm_wire(msg_to_wire(m)) for m in res[name]["read"] if not isinstance(m, list)]
+        exp = []
+        if ref_batching(v):
+            exp += [(norm_wire(MEMBERS[k]), inbound_class(MEMBERS[k]) == "valid") for k in members
+                    if inbound_class(MEMBERS[k]) != "invalid"]
+        exp.append((norm_wire(MEMBERS["note"]), True))
+        ok, why = seq_match(got, exp)
+        if not ok:
+            mech = "rejected_batch_member_delivered" if not ref_batching(v) else "valid_member_lost"
+            ctx.violation(mech, f"two clients in one process (versions {va!r}, {vb!r}): client {name} at {v!r}: {why}", case)
+        rej = []
+        for l in res[name].get("stdin", b"").split(b"\n"):
+            if l.strip():
+                try:
+                    o = json.loads(l)
+                except Exception:
+                    continue
+                if isinstance(o, dict) and isinstance(o.get("error"), dict):
+                    rej.append(o)
+        want = 0 if ref_batching(v) else 1
+        if len(rej) != want:
+            ctx.violation("rejection_count", f"two clients in one process (versions {va!r}, {vb!r}): client {name} at {v!r} "
+                          f"wrote {len(rej)} rejections, expected {want}", case)
+        shape.append([len(got), len(rej)])
+    ctx.record(case, shape=shape, nontrivial=True, cls="two_clients", sample={"case": case, "delivered_rejections": shape})
+
+
 def run(ctx):
     from chuk_mcp.protocol.features.batching import supports_batching, BatchProcessor, should_reject_batch
     from chuk_mcp.protocol.types.versioning import ProtocolVersion
@@ -394,11 +447,21 @@ def run(ctx):
                 case = {"handshake": hv, "variant": variant, "batch": b}
                 if ctx.mine():
                     exec_wrapper_handshake(ctx, case)
+    for va, vb in itertools.permutations([None, "2025-03-26", "2025-06-18", "2025-06-19", "2024-11-05"], 2):
+        for b in (["req", "note"], ["resp", "bad_obj", "err"]):
+            for order in ("ab", "ba"):
+                case = {"versions": [va, vb], "batch": b, "order": order, "two_clients": True}
+                if ctx.mine():
+                    exec_two_clients(ctx, case)
     ctx.require_reached("decision_strings")
     ctx.require_reached("stdio_sessions")
 
 
 def replay(ctx, case):
+    if case.get("two_clients"):
+        exec_two_clients(ctx, case)
+        ctx.record({"x": 1}, shape=1)
+        return
     if "variant" in case:
         exec_wrapper_handshake(ctx, case)
         ctx.record({"x": 1}, shape=1)
